@@ -8,8 +8,9 @@ _cache = {}
 
 def lock_sinks(fx, eng, classes):
     out = {}
+    _cache = fx.__dict__.setdefault('_lock_cache', {})
     for cls in classes:
-        k = (id(fx), cls)
+        k = cls
         if k not in _cache:
             sink = Sink()
             if cls == 'MCSLock':
@@ -211,6 +212,23 @@ def _thread_fns(rep, fx, tus):
             rep.saw_fn(f)
 
 
+def _ids_other_capacity(rep, prefixes, cap=3):
+    """the ID rules quantify over capacities: repeat them on facts extracted with a small capacity that is not a power of two"""
+    import facts as F2
+    import ids
+    from pathsim import Engine
+    fx2 = F2.extract(['id_manager.cpp', 'epoch_manager.cpp'], cmake_defs=['DBGROUP_MAX_THREAD_NUM=%d' % cap], repo=F2.REPO)
+    eng2 = Engine(fx2, max_header_visits=3)
+    r2, sink2 = ids.analyse(fx2, eng2)
+    n = 0
+    for it in sink2.items:
+        if any(it['rule'].startswith(p) for p in prefixes):
+            n += 1
+            key = '[capacity %d] %s' % (cap, it['key'])
+            getattr(rep, {'ok': 'ok', 'violated': 'violation', 'unsupported': 'unsupported'}[it['status']])(it['rule'], key, it['loc'], it['detail'])
+    return n
+
+
 def check_C15(fx, eng, rep, tier):
     import ids
     eng.max_header_visits = 3
@@ -221,7 +239,7 @@ def check_C15(fx, eng, rep, tier):
                        'by the destructor only, GetHeartBeat returns a weak_ptr to it, and HeartBeater cannot be copied (no second owner of the control block).')
     rep.rule_text = 'C15.ORDER / C15.SYNC / C15.LIFE on ~HeartBeater, the claim loop, SetID, GetHeartBeat'
     rep.trusted = ['clang 14 CFG with implicit destructors', 'std::shared_ptr/weak_ptr semantics (expired <=> no owner)']
-    n = _take(rep, sink, ['C15.'])
+    n = _take(rep, sink, ['C15.', 'C05.CLAIM', 'C05.WHO'])
     _thread_fns(rep, fx, ('id_manager.cpp',))
     rep.floor('C15 obligations', n, 8)
 
@@ -237,6 +255,7 @@ def check_C05(fx, eng, rep, tier):
     rep.rule_text = 'C05.CLAIM / C05.WHO / C05.RANGE / C05.STABLE per path of GetHeartBeater and ~HeartBeater; thorough tier re-extracts under DBGROUP_MAX_THREAD_NUM in {1,2,3,256}'
     rep.trusted = ['clang 14 AST/CFG', 'extent of the array from the type-checked program']
     n = _take(rep, sink, ['C05.', 'C14.FREE'])
+    _ids_other_capacity(rep, ['C05.', 'C14.FREE'])
     _thread_fns(rep, fx, ('id_manager.cpp',))
     rep.extra['capacity'] = r.extent
     rep.floor('C05 obligations', n, 10)
@@ -253,6 +272,7 @@ def check_C14(fx, eng, rep, tier):
     rep.trusted = ['clang 14 AST/CFG']
     rep.assumptions = ['liveness under over-subscription is not decided; these are its necessary conditions']
     n = _take(rep, sink, ['C14.', 'C05.WHO', 'C05.STABLE'])
+    _ids_other_capacity(rep, ['C14.', 'C05.WHO', 'C05.STABLE'])
     _thread_fns(rep, fx, ('id_manager.cpp',))
     rep.floor('C14 obligations', n, 6)
 
@@ -274,7 +294,7 @@ def check_C04(fx, eng, rep, tier):
     rep.rule_text = 'C04.GUARD / ENTER / BIND / SCAN / PUBLISH / SHARED + C16.SORT + C15.ORDER / C15.SYNC (EP.REUSE)'
     rep.trusted = ['clang 14 AST/CFG', 'single coordinator calls ForwardGlobalEpoch (documented contract)', 'std::sort/unique/erase semantics']
     rep.assumptions = ['visibility of the relaxed pin store to the scan is read as happens-before ("completely created before")']
-    n = _take(rep, sink, ['C04.', 'C16.SORT'])
+    n = _take(rep, sink, ['C04.', 'C16.SORT', 'C16.MIN'])
     n += _take(rep, sink2, ['C15.ORDER', 'C15.SYNC'])
     _thread_fns(rep, fx, EPOCH_TUS)
     rep.floor('C04 obligations', n, 25)
